@@ -25,6 +25,7 @@ PROPERTIES = {
             ('C01-R5', c01.rule_literal_escaping, 'quick'),
             ('C17-R7', cextra.rule_flag_mask_agreement, 'quick'),
             ('C09-R4', cextra.rule_extend_guards, 'quick'),
+            ('C01-R6', cextra.rule_inverse_cleanup, 'quick'),
         ],
     },
     'C02': {
@@ -44,6 +45,7 @@ PROPERTIES = {
             ('C02-R8', c02.rule_forced_pathname, 'quick'),
             ('C03-R2', c03.rule_guard_tables, 'quick'),
             ('C02-R9', cextra.rule_references_table, 'quick'),
+            ('C02-R10', cextra.rule_lookahead_putback, 'quick'),
         ],
     },
     'C03': {
@@ -105,6 +107,7 @@ PROPERTIES = {
             ('C19-R3', c19.rule_per_call_objects, 'quick'),
             ('C19-R4', c19.rule_immutability, 'quick'),
             ('C19-R5', c19.rule_glob_instance_state, 'quick'),
+            ('C07-R7', cextra.rule_match_siblings, 'quick'),
         ],
     },
     'C20': {
@@ -166,6 +169,8 @@ PROPERTIES = {
             ('C03-R4', c03.rule_exclusion_dotmatch, 'quick'),
             ('C06-R1', cglob.rule_link_test, 'quick'),
             ('C04-R10', cextra.rule_dirfd_siblings, 'quick'),
+            ('C12-R6', cextra.rule_same_name_forwarding, 'quick'),
+            ('C07-R7', cextra.rule_match_siblings, 'quick'),
         ],
     },
     'C05': {
@@ -220,6 +225,7 @@ PROPERTIES = {
             ('C04-R10', cextra.rule_dirfd_siblings, 'quick'),
             ('C05-R4', cglob.rule_specials_and_start, 'quick'),
             ('C02-R7', c02.rule_nodir, 'quick'),
+            ('C12-R6', cextra.rule_same_name_forwarding, 'quick'),
         ],
     },
     'C13': {
@@ -250,6 +256,7 @@ PROPERTIES = {
             ('C02-R6', c02.rule_matchbase, 'quick'),
             ('C16-R5', cextra.rule_pathlib_norm, 'quick'),
             ('C17-R7', cextra.rule_flag_mask_agreement, 'quick'),
+            ('C12-R6', cextra.rule_same_name_forwarding, 'quick'),
         ],
     },
     'C17': {
@@ -291,6 +298,8 @@ PROPERTIES = {
             ('C07-R6', clists.rule_bracket_extents, 'quick'),
             ('C02-R4', c02.rule_bracket_abort, 'quick'),
             ('C09-R4', cextra.rule_extend_guards, 'quick'),
+            ('C07-R7', cextra.rule_match_siblings, 'quick'),
+            ('C12-R6', cextra.rule_same_name_forwarding, 'quick'),
         ],
     },
     'C08': {
@@ -306,6 +315,7 @@ PROPERTIES = {
             ('C19-R2', c19.rule_cache_key, 'quick'),
             ('C02-R7', c02.rule_nodir, 'quick'),
             ('C01-R2', c01.rule_extglob_dispatch, 'quick'),
+            ('C01-R6', cextra.rule_inverse_cleanup, 'quick'),
         ],
     },
     'C09': {
@@ -322,6 +332,7 @@ PROPERTIES = {
             ('C01-R3ii', c01.rule_fullmatch_sites, 'quick'),
             ('C09-R4', cextra.rule_extend_guards, 'quick'),
             ('C09-R5', cextra.rule_is_magic_guard, 'quick'),
+            ('C12-R6', cextra.rule_same_name_forwarding, 'quick'),
         ],
     },
     'C10': {
@@ -340,6 +351,7 @@ PROPERTIES = {
             ('C20-R3', c20.rule_translation_table, 'quick'),
             ('C02-R5', c02.rule_globstar_predicate, 'quick'),
             ('C17-R5', cflags.rule_sep_parametric, 'quick'),
+            ('C02-R10', cextra.rule_lookahead_putback, 'quick'),
         ],
     },
 }
